@@ -1113,6 +1113,18 @@ class UndoFamily(ReorgFamily):
             plan.append(dict(op='open_check'))
             plan.append(dict(op='sync'))
             plan.append(dict(op='undo_check'))
+        if rng.random() < 0.4:
+            # a fork within the window that is found while the server still holds blocks it has indexed but not
+            # yet flushed (the daemon finds blocks and reorganises between two polls / mid-batch)
+            for _ in range(rng.randint(1, 2)):
+                n = rng.randint(1, 4)
+                plan.append(dict(op='mine', n=n, ntx=ntx_list(rng, n), seed=rng.getrandbits(32),
+                                 at=round(rng.uniform(0.0, 2.0), 3)))
+                plan.append(dict(op='fork', depth=rng.choice([1, 1, min(Le, 2), min(Le, n + 1)]), extra=1, ntx=[2, 3],
+                                 remine=0.5, at=round(rng.uniform(0.0, 7.0), 3), seed=rng.getrandbits(32)))
+                plan.append(dict(op='wait', dt=round(rng.uniform(0.5, 8.0), 2)))
+            plan.append(dict(op='sync'))
+            plan.append(dict(op='undo_check'))
         plan.append(dict(op='snapshot', keep=True))
         for delta in rng.sample([-1, 0, 1], rng.randint(1, 3)):
             plan.append(dict(op='restore'))
